@@ -1,21 +1,20 @@
-//! Coverage-guided fuzzing of the same generators and oracles (thorough tier).
+//! Coverage-guided fuzzing of the same interpreters and oracles (thorough tier).
 //!
-//! The bytes libFuzzer mutates are fed to proptest's *pass-through* RNG, so a fuzz input is the choice
-//! sequence of the very strategy the seeded search uses (first byte = sub-check, rest = choices; exhausted
-//! input = zeros = the first arm of every union / the shortest collection). The case is then run through
-//! the same interpreter and judged by the same oracle inside the target; a violation that is not an open
-//! known finding is written out as a JSON replay (the format of the replay tier) before the process aborts,
-//! so the reproducible unit is the decoded case, not the byte string.
+//! One libFuzzer target (`fuzz/fuzz_targets/prop.rs`) serves every fuzzable property: `VERIF_FUZZ_PROP`
+//! selects the property, the first input byte its sub-check, and the remaining bytes are decoded by a
+//! hand-written `arbitrary::Unstructured` decoder into a case of that sub-check's input domain (same grammar,
+//! ranges and profile weights as the proptest strategies; any byte string decodes to a valid case). The case
+//! is run through the same interpreter and judged by the same oracle inside the target; a violation that is
+//! not an open known finding is written out as a JSON replay (the format of the replay tier) before the
+//! process aborts, so the reproducible unit is the decoded case, not the byte string.
 //!
 //! `campaign` (called by the check binary in the thorough tier) builds the target with
 //! `cargo +nightly fuzz build` (ASan + SanCov over calloop and the harness), seeds a fresh corpus with
-//! recorded choice sequences of ordinary proptest cases, runs `-jobs` libFuzzer processes for a fixed number
-//! of runs, collects statistics for the evidence file and re-confirms every reported violation in-process.
+//! pseudo-random inputs, runs `-jobs` libFuzzer processes for a fixed number of runs, collects statistics for
+//! the evidence file and re-confirms every reported violation in-process.
 
 use crate::driver::{CaseOutcome, CheckCtx, Found, Tier, Violation};
 use crate::evidence::CaseInfo;
-use proptest::strategy::{Strategy, ValueTree};
-use proptest::test_runner::{Config, RngAlgorithm, TestRng, TestRunner};
 use serde::Serialize;
 use serde_json::{json, Value};
 use std::cell::RefCell;
@@ -25,78 +24,46 @@ use std::path::{Path, PathBuf};
 use std::process::Command;
 
 pub type FuzzRun = Box<dyn Fn(&[u8]) -> Option<(CaseInfo, Option<Violation>, Value)>>;
-pub type FuzzSeed = Box<dyn Fn(u64) -> Vec<u8>>;
 
 /// One sub-check of a property as a fuzzable function of bytes.
 pub struct FuzzSub {
     pub name: String,
     pub run: FuzzRun,
-    /// choice sequence (recorded RNG output) of the case a ChaCha RNG seeded with `n` generates
-    pub seed_bytes: FuzzSeed,
 }
 
-fn cfg() -> Config {
-    Config { failure_persistence: None, ..Config::default() }
-}
-
-/// Fixed pseudo-random tail appended to every choice sequence. proptest's pass-through RNG yields zeros
-/// once its data is used up, and rand 0.9's uniform integer sampling *rejects* a zero draw for every range
-/// that is not a power of two (it would loop for ever); with the tail an exhausted input simply continues
-/// with fixed, non-degenerate choices.
-fn tail() -> &'static [u8] {
-    static TAIL: std::sync::OnceLock<Vec<u8>> = std::sync::OnceLock::new();
-    TAIL.get_or_init(|| {
-        let mut x: u64 = 0x9E37_79B9_7F4A_7C15;
-        let mut v = Vec::with_capacity(1 << 15);
-        while v.len() < (1 << 15) {
-            x ^= x >> 12;
-            x ^= x << 25;
-            x ^= x >> 27;
-            v.extend_from_slice(&x.wrapping_mul(0x2545_F491_4F6C_DD1D).to_le_bytes());
-        }
-        v
-    })
-}
-
-/// Decode a case from a choice sequence.
-pub fn decode<S: Strategy>(strategy: &S, data: &[u8]) -> Option<S::Value> {
-    let mut padded = Vec::with_capacity(data.len() + (1 << 15));
-    padded.extend_from_slice(data);
-    padded.extend_from_slice(tail());
-    let rng = TestRng::from_seed(RngAlgorithm::PassThrough, &padded);
-    let mut runner = TestRunner::new_with_rng(cfg(), rng);
-    strategy.new_tree(&mut runner).ok().map(|t| t.current())
-}
-
-/// Generate a case from a seed and return it with the choice sequence that produced it.
-pub fn record<S: Strategy>(strategy: &S, n: u64) -> Option<(S::Value, Vec<u8>)> {
-    let mut seed = [0u8; 32];
-    seed[..8].copy_from_slice(&n.to_le_bytes());
-    seed[8..16].copy_from_slice(&n.wrapping_mul(0x9E37_79B9_7F4A_7C15).to_le_bytes());
-    let rng = TestRng::from_seed(RngAlgorithm::Recorder, &seed);
-    let mut runner = TestRunner::new_with_rng(cfg(), rng);
-    let v = strategy.new_tree(&mut runner).ok()?.current();
-    let bytes = runner.bytes_used();
-    Some((v, bytes))
-}
-
-pub fn sub<T, S, F>(name: &str, strategy: S, run: F) -> FuzzSub
+/// `decode` maps ANY byte string to a case inside the sub-check's input domain (construction, never rejection).
+pub fn sub<T, D, F>(name: &str, decode: D, run: F) -> FuzzSub
 where
     T: Debug + Serialize + 'static,
-    S: Strategy<Value = T> + 'static,
+    D: Fn(&[u8]) -> T + 'static,
     F: Fn(&T) -> CaseOutcome + 'static,
 {
-    let strategy = std::rc::Rc::new(strategy);
-    let s2 = strategy.clone();
     FuzzSub {
         name: name.to_string(),
         run: Box::new(move |data| {
-            let case = decode(&*strategy, data)?;
+            let case = decode(data);
             let (info, v) = run(&case);
             Some((info, v, serde_json::to_value(&case).unwrap_or(Value::Null)))
         }),
-        seed_bytes: Box::new(move |n| record(&*s2, n).map(|(_, b)| b).unwrap_or_default()),
     }
+}
+
+/// Pseudo-random seed input number `n` (xorshift; lengths 16..~1500 bytes).
+pub fn seed_input(n: u64) -> Vec<u8> {
+    let mut x: u64 = 0x9E37_79B9_7F4A_7C15 ^ n.wrapping_mul(0xD134_2543_DE82_EF95).wrapping_add(1);
+    let mut next = move || {
+        x ^= x >> 12;
+        x ^= x << 25;
+        x ^= x >> 27;
+        x.wrapping_mul(0x2545_F491_4F6C_DD1D)
+    };
+    let len = 16 + (next() % 96) as usize * (1 + (n % 16) as usize);
+    let mut v = Vec::with_capacity(len + 8);
+    while v.len() < len {
+        v.extend_from_slice(&next().to_le_bytes());
+    }
+    v.truncate(len);
+    v
 }
 
 // ------------------------------------------------------------------------------------------------
@@ -271,12 +238,13 @@ pub fn campaign(ctx: &CheckCtx, subs: &[FuzzSub], runs_per_job: u64, jobs: usize
         return None;
     }
     let build_s = t0.elapsed().as_secs_f64();
-    // 2. seed corpus: recorded choice sequences of ordinary generated cases + the empty input
+    // 2. seed corpus: pseudo-random inputs of varied length (every byte string decodes to a valid case) + the empty input
     let mut seeds = 0;
     for (i, s) in subs.iter().enumerate() {
         for n in 0..48u64 {
             let mut bytes = vec![i as u8];
-            bytes.extend((s.seed_bytes)(ctx.seed.wrapping_mul(1000).wrapping_add(n)));
+            let _ = s;
+            bytes.extend(seed_input(ctx.seed.wrapping_mul(1000).wrapping_add(n).wrapping_add((i as u64) << 32)));
             bytes.truncate(8192);
             if std::fs::write(corpus.join(format!("seed-{i}-{n}")), &bytes).is_ok() {
                 seeds += 1;
@@ -352,7 +320,7 @@ pub fn campaign(ctx: &CheckCtx, subs: &[FuzzSub], runs_per_job: u64, jobs: usize
         "fuzz",
         json!({
             "status": "ran",
-            "engine": "libFuzzer via cargo-fuzz (ASan + SanCov), input = proptest choice sequence (pass-through RNG)",
+            "engine": "libFuzzer via cargo-fuzz (ASan + SanCov), input bytes decoded by arbitrary::Unstructured into the sub-check's case grammar",
             "subs": subs.iter().map(|s| s.name.clone()).collect::<Vec<_>>(),
             "jobs": jobs,
             "runs_per_job": runs_per_job,
